@@ -13,7 +13,7 @@
    transport with the same id). *)
 From Coq Require Import List ZArith Bool.
 Import ListNotations.
-From Goat Require Import Model.Client Model.Server Model.Sys Proofs.SysLog Proofs.SysProofs Proofs.SysFacts Proofs.SysC01 Proofs.SysC01b Proofs.SysC01c.
+From Goat Require Import Model.Client Model.Server Model.Sys Proofs.SysLog Proofs.SysProofs Proofs.SysFacts Proofs.SysC01 Proofs.SysC01b Proofs.SysC01c Proofs.SysC01d.
 Open Scope Z_scope.
 
 (* every run of the system is a run of the client model and a run of the server model *)
@@ -88,6 +88,16 @@ Theorem C01_never_two : forall pol ls s c, Sys.lrun pol Sys.init ls = Some s ->
 Proof. intros pol ls s c H. exact (ret_at_most_once _ _ c (proj_c_run _ _ _ _ H)). Qed.
 Print Assumptions C01_never_two.
 
+(* complete (Q-form): in a quiescent state of the system (both components quiescent, both wires empty, no
+   handler waiting at its gate) reached without an injected fault by Invoke programs (every call unary, none
+   parked at a yield point) every call has returned *)
+Theorem C01_complete : forall f ls s, Sys.lrun (pol_c01 f) Sys.init ls = Some s -> fault_free ls = true ->
+  Sys.quiescent s = true ->
+  (forall c k, nth_error (calls (cl s)) c = Some k -> k_unary k = true /\ k_pc k <> PParked) ->
+  forall c k, nth_error (calls (cl s)) c = Some k -> k_pc k = PRet.
+Proof. exact SysC01d.C01_complete. Qed.
+Print Assumptions C01_complete.
+
 (* the hypotheses are met by concrete, non-trivial runs: three calls one after the other, and three calls
    in flight at once; each returns mix3 of its own payload, and the final state is quiescent *)
 Example C01_demo_sequential :
@@ -104,6 +114,8 @@ Example C01_demo_concurrent :
               /\ In (EvUnaryRet 2 (UOk (mix3 0))) (Client.log (cl s)) /\ Sys.quiescent s = true
               /\ length (filter h_unary (hs (sv s))) = 3%nat
               /\ inv_count 1 (Server.log (sv s)) = 1%nat /\ inv_count 2 (Server.log (sv s)) = 1%nat
+              /\ fault_free demo_c01_conc = true
+              /\ forallb (fun k => k_unary k && match k_pc k with PRet => true | _ => false end) (calls (cl s)) = true
   | None => False
   end.
 Proof. vm_compute. tauto. Qed.
